@@ -18,8 +18,9 @@ CHECKS = {
             "random real schedules are validated against WormholeTrace.tla, the TLA+ observer decides", "3/C03"),
     "C08": ("TLC checks ClosedOnce / NothingAfter / VerdictRight / ServerFreedAtClose with close() enabled in every reachable "
             "state; replayed on real wormholes with the server twin's tables inspected at the closed notification", "3/C08"),
-    "C09": ("TLC checks InOrderOnce / OnceEach with a connection drop at every step; real executions must reach the goal "
-            "(key established, every message delivered) once connectivity is stable", "3/C09"),
+    "C09": ("TLC checks InOrderOnce / OnceEach with a connection drop or an aborted reconnect at every step; real executions whose "
+            "environment was benign (drops, aborted reconnects, duplicates, reorderings) must reach the goal (key established, every "
+            "message delivered) after a fair completion; arrival-permutation and un-echoed-resubmission families", "3/C09"),
     "C14": ("TLC reachability of NoTransition / assertion failures on the tables extracted from the tree (re-entrant close, late "
             "frames, third participant, failed connection, input/allocate flows); every counterexample is replayed on the real "
             "code before it counts", "3/C14"),
@@ -135,7 +136,8 @@ NOTES = {
            "judged only once a complete manipulated frame has been consumed",
     "C07": "<=3 contenders per configuration, a unit split at most once, scripted relay and strangers; HKDF-derived handshakes "
            "cannot be produced without the key",
-    "C10": "L2 connections are scripted at record granularity (byte-level loss is C12's concern: a partial frame is a lost frame); "
+    "C10": "both directions over scripted L2 connections (record granularity) and the Leader -> Follower direction also over pairs of real "
+           "DilatedConnectionProtocol objects (selecting window: cand/inq/ReconnectA/SelectB) with TLC witness behaviours; "
            "<=8 records and <=3 cuts in TLC/simulation",
     "C13": "runs over one reliable connection (C10 is the interface); <=2 subchannels, <=2 writes per end in TLC",
     "C11": "<=4 links and <=2 cuts exhaustively (6 links in simulation); handshake progress per link is lock-step phases, byte-level "
